@@ -411,6 +411,7 @@ func CheckC11(c *Ctx) {
 	// the layouts dates are written and read with carry every field they carry completely
 	c.timeLayouts()
 	c.jsonSeparators()
+	c.columnTable()
 	// a field without a format tag is written and parsed with the documented default layout
 	c.defaultsUsed("codec-agreement/default-layout", "helper")
 	c.Run.Floor("default_constants", 2)
@@ -1394,4 +1395,140 @@ func (c *Ctx) jsonSeparators() {
 	if why != "" {
 		c.violate("codec-agreement/json-separator", site, short(why, 60), loop.Pos(), "the JSON writer must put exactly one ',' between consecutive elements: "+why)
 	}
+}
+
+// columnTable: the codec has one column descriptor per field of the row type. Where the table is
+// created with a length (`make([]csvColumn, L)`) and filled by position, L is the bound of the
+// loop that fills it, that loop runs over 0 <= i < NumField() in steps of one, and slot i gets
+// the descriptor of field i. (A table of another length writes cells that belong to no field,
+// or leaves fields out of the file.)
+func (c *Ctx) columnTable() {
+	run := c.Run
+	run.Explanation += " The column table of the CSV codec has one descriptor per field of the row type, slot i for field i."
+	fi := c.fn("helper", "", "NewCsv")
+	if fi == nil {
+		return
+	}
+	info := fi.Pkg.TypesInfo
+	site := "helper.NewCsv"
+	n := 0
+	for _, member := range c.family(fi) {
+		body := member.Decl.Body
+		if body == nil {
+			continue
+		}
+		resolve := func(e ast.Expr) ast.Expr {
+			o, _ := c.origin(info, member.Decl, e, 0)
+			return o
+		}
+		for i, st := range body.List {
+			as, ok := st.(*ast.AssignStmt)
+			if !ok || len(as.Lhs) != 1 || len(as.Rhs) != 1 || !isColumnSlice(info.TypeOf(as.Lhs[0])) {
+				continue
+			}
+			mk, ok := ast.Unparen(as.Rhs[0]).(*ast.CallExpr)
+			if !ok || len(mk.Args) < 2 {
+				continue
+			}
+			if id, isID := mk.Fun.(*ast.Ident); !isID || id.Name != "make" {
+				continue
+			}
+			if v, isC := constInt(info, mk.Args[1]); isC && v == 0 {
+				continue // created empty and appended to: positions follow the loop
+			}
+			n++
+			why := ""
+			var loop *ast.ForStmt
+			ranged := false
+			for _, later := range body.List[i+1:] {
+				if f, isFor := later.(*ast.ForStmt); isFor {
+					loop = f
+					break
+				}
+				// `for i := range table` / `for i := range NumField()`: every slot once, by its key
+				if r, isR := later.(*ast.RangeStmt); isR && r.Value == nil {
+					if exprString(r.X) == exprString(as.Lhs[0]) || isNumFieldCall(resolve(r.X)) {
+						ranged = true
+						break
+					}
+				}
+			}
+			if ranged {
+				if !isNumFieldCall(resolve(mk.Args[1])) {
+					run.Oblige(false)
+					c.violate("codec-agreement/column-table", site, "slots", as.Pos(), "one column descriptor per field of the row type: the table is created with "+exprString(mk.Args[1])+" slots, not NumField()")
+				} else {
+					run.Oblige(true)
+				}
+				continue
+			}
+			isNumField := isNumFieldCall
+			switch {
+			case loop == nil || loop.Cond == nil || loop.Init == nil || loop.Post == nil:
+				why = "no counted loop fills the table (undecided, fails closed)"
+			case !isNumField(resolve(mk.Args[1])):
+				why = "the table is created with " + exprString(mk.Args[1]) + " slots, not one per field (NumField())"
+			default:
+				be, isBin := ast.Unparen(loop.Cond).(*ast.BinaryExpr)
+				init, isInit := loop.Init.(*ast.AssignStmt)
+				post, isPost := loop.Post.(*ast.IncDecStmt)
+				if !isBin || be.Op != token.LSS || !isInit || !isPost || post.Tok != token.INC || len(init.Lhs) != 1 || len(init.Rhs) != 1 {
+					why = "the loop that fills the table is not `for i := 0; i < NumField(); i++` (undecided, fails closed)"
+					break
+				}
+				iv, _ := init.Lhs[0].(*ast.Ident)
+				start, isC := constInt(info, init.Rhs[0])
+				switch {
+				case iv == nil || !isC || start != 0:
+					why = "the loop that fills the table does not start at field 0"
+				case exprString(resolve(be.Y)) != exprString(resolve(mk.Args[1])) || exprString(be.X) != iv.Name || exprString(post.X) != iv.Name:
+					why = "the loop that fills the table runs to " + exprString(be.Y) + ", the table has " + exprString(mk.Args[1]) + " slots"
+				default:
+					// slot i <- descriptor with FieldIndex i
+					stores := 0
+					ast.Inspect(loop.Body, func(m ast.Node) bool {
+						a2, ok := m.(*ast.AssignStmt)
+						if !ok || len(a2.Lhs) != 1 || len(a2.Rhs) != 1 {
+							return true
+						}
+						ix, ok := a2.Lhs[0].(*ast.IndexExpr)
+						if !ok || exprString(ix.X) != exprString(as.Lhs[0]) {
+							return true
+						}
+						stores++
+						if exprString(ix.Index) != iv.Name {
+							why = "the descriptor is stored at " + exprString(ix.Index) + ", not at the field's own position"
+						}
+						if cl, isCL := ast.Unparen(a2.Rhs[0]).(*ast.CompositeLit); isCL {
+							for _, el := range cl.Elts {
+								if kv, isKV := el.(*ast.KeyValueExpr); isKV {
+									if k, isID := kv.Key.(*ast.Ident); isID && k.Name == "FieldIndex" && exprString(kv.Value) != iv.Name {
+										why = "the descriptor at position " + iv.Name + " describes field " + exprString(kv.Value)
+									}
+								}
+							}
+						}
+						return true
+					})
+					if stores == 0 && why == "" {
+						why = "the loop does not store a descriptor into the table"
+					}
+				}
+			}
+			run.Oblige(why == "")
+			if why != "" {
+				c.violate("codec-agreement/column-table", site, short(why, 60), as.Pos(), "one column descriptor per field of the row type, slot i for field i: "+why)
+			}
+		}
+	}
+	run.Count("csv_column_tables", n)
+}
+
+func isNumFieldCall(e ast.Expr) bool {
+	call, ok := ast.Unparen(e).(*ast.CallExpr)
+	if !ok || len(call.Args) != 0 {
+		return false
+	}
+	sel, ok := call.Fun.(*ast.SelectorExpr)
+	return ok && sel.Sel.Name == "NumField"
 }
